@@ -419,16 +419,24 @@ template <typename View, typename Value>
 BOOST_FORCEINLINE
 void fill_pixels(View const& view, Value const& value)
 {
+    // the per-plane fill needs planar_pixel_iterator itself; a step iterator over it (flipped, transposed,
+    // subsampled planar views) is planar but is not a color base of channel pointers
+    using fill_per_plane = std::integral_constant
+        <
+            bool,
+            is_planar<View>::value && !is_iterator_adaptor<typename View::x_iterator>::value
+        >;
+
     if (view.is_1d_traversable())
     {
         detail::fill_aux(
-            view.begin().x(), view.end().x(), value, is_planar<View>());
+            view.begin().x(), view.end().x(), value, fill_per_plane());
     }
     else
     {
         for (std::ptrdiff_t y = 0; y < view.height(); ++y)
             detail::fill_aux(
-                view.row_begin(y), view.row_end(y), value, is_planar<View>());
+                view.row_begin(y), view.row_end(y), value, fill_per_plane());
     }
 }
 
